@@ -44,8 +44,40 @@ CLAIMS["C05"] = (
     "programs, compared with the reference semantics and with the semantics of the model's generated code).",
     NOTE_COMMON + "Async try variants: result set over completion orders is covered by K2 only until the async model lands.",
     "Lean 4 refinement proof + K2 compiled-execution differential", "§7 C05")
-for _k in ("C05", "C15"):
-    CLAIMS.pop(_k)   # not claimed before their Props modules exist
+REFINE = ("Central theorem sync_refines (lean/JoinModel/Refinement.lean): for every parsed program (any branches, depth profile, operators, "
+          "captures, names, handler), every user world and calling thread, the semantics of the code the generator model emits equals the "
+          "reference step loop — events and result, panics included — for the sequential and thread-spawning macros. ")
+K2NOTE = ("K2 compiles instrumented programs with the real macros and compares value, event order, thread names with the reference semantics "
+          "(and with the semantics of the model's generated code); K1 compares the generator model with the real generator token for token. ")
+ASYNC_NOTE = "Async and task-spawning variants: the async semantic model is not part of this theorem; they are covered by K1 (tokens) and K2 where noted. "
+CLAIMS["C03"] = (REFINE + "Property theorems (Props/C03): on the calling thread the events are sorted by (step, captures before chains) for every "
+                 "program; a chain's input is its own branch's previous result. Interleavings of branch threads: Props/C08 (Lin). " + K2NOTE,
+                 NOTE_COMMON + ASYNC_NOTE, "Lean 4 refinement proof + order theorems on the reference loop; K2 barrier oracle on real executions", "§7 C03")
+CLAIMS["C04"] = (REFINE + "Props/C04: element i of a non-try result is what branch i's own last chain returned (∀ profiles); a step only touches "
+                 "the positions of its active branches; handler and result are built from the same list. " + K2NOTE,
+                 NOTE_COMMON + ASYNC_NOTE + "For try macros the payload version is covered through C05 + K2.",
+                 "Lean 4 refinement proof + position theorem on the reference loop; K2 on enumerated depth profiles", "§7 C04")
+CLAIMS["C06"] = (REFINE + "Props/C06: after a failing step j no event of a later step exists, every branch active in j ran its chain to the end, "
+                 "and no handler call happens. " + K2NOTE, NOTE_COMMON + ASYNC_NOTE,
+                 "Lean 4 refinement proof + trace theorems; K2 event-log differential", "§7 C06")
+CLAIMS["C11"] = (REFINE + "Props/C11: the hoisting operator set equals the documented one (table theorem over regenerated T9); capture events are "
+                 "exactly (active branch, position, operand) in order, once each; sorted before the chains of their step and after the previous "
+                 "step; never inside a branch thread; the operand is replaced by the bound name. " + K2NOTE, NOTE_COMMON + ASYNC_NOTE,
+                 "Lean 4 table theorem + refinement + order theorems; K1/K2 differential", "§7 C11")
+CLAIMS["C12"] = (REFINE + "Props/C12: every capture of step k sees exactly the named branches' latest values (wrapped in try macros, finished "
+                 "branches included), nothing in step 0; the generated code's visibility equals the reference's (invariant of the refinement). "
+                 "`let` does not change the result: by the refinement the result depends on names only through what user code reads. " + K2NOTE,
+                 NOTE_COMMON + ASYNC_NOTE + "let_result_invariant is not stated as a separate Lean theorem (K2 compares results of named and unnamed programs).",
+                 "Lean 4 refinement proof + visibility theorems; K2 snapshots of names in scope", "§7 C12")
+CLAIMS["C13"] = (REFINE + "Props/C13: then/map/and_then semantics of the reference (called exactly once with the values in branch order iff "
+                 "applicable, never after a failure); gen returns the rejection exactly for (non-try ∧ map/and_then) and (try ∧ then), ∀ inputs. "
+                 "Second handler: parser oracle in K1. " + K2NOTE, NOTE_COMMON + ASYNC_NOTE + "Awaiting of the handler's value in async macros: K1 tokens only.",
+                 "Lean 4 refinement + decision theorem for rejections; K1 rejection oracle; K2 handler events", "§7 C13")
+CLAIMS["C18"] = (REFINE + "Props/C18: a panicking chain/capture/handler makes the step and hence the macro panic (sequential: first in branch "
+                 "order; threads: at the join of the panicked thread, caller not blocked), and the trace then contains only events of steps up to "
+                 "the panicking one. " + K2NOTE, NOTE_COMMON + ASYNC_NOTE + "Behaviour of tokio on a panicking task is assumed (template __spawn_tokio).",
+                 "Lean 4 refinement + panic propagation theorems; K2 panic injection with watchdog", "§7 C18")
+CLAIMS.pop("C15")   # not claimed before its Props module exists
 PLANNED = {}
 
 
